@@ -18,7 +18,7 @@ RULE = ("request.url: full product of schemes {http,https,ws,wss} x servers (nam
         "keyed class) x queries, on both interfaces. replace(): URLs with a host (6 user-info shapes x 5 hosts x 3 ports) x every subset of <=3 of the 8 "
         "components x candidate values (passwords with '@', ':', '*'; IPv6 hosts). Query helpers on repeated keys. Non-trivial = non-default port, IPv6, "
         "Host header present, user-info involved, or >=2 components replaced; distinct = the full input tuple.")
-RULE += " Also: ports 0 / 80 / 443 under every scheme, server addresses without a port (ASGI), paths that begin with the root path, query keys that need encoding, components read through the URL object's own accessors as well as from its text, a second request object over a rewritten copy of (or the rewritten) environ / scope. request.url taken, the environ / scope then rewritten in place by a later layer, the URL object read only afterwards (it describes the request as it was). Raw ; , : inside query values; server ports 1 / 65534 / 65535. The optional scheme key left out of the ASGI scope."
+RULE += " Also: ports 0 / 80 / 443 under every scheme, server addresses without a port (ASGI), paths that begin with the root path, query keys that need encoding, components read through the URL object's own accessors as well as from its text, a second request object over a rewritten copy of (or the rewritten) environ / scope. request.url taken, the environ / scope then rewritten in place by a later layer, the URL object read only afterwards (it describes the request as it was). Raw ; , : inside query values; server ports 1 / 65534 / 65535. The optional scheme key left out of the ASGI scope. X-Forwarded-Host / X-Forwarded-Proto decoys."
 ASSUMPTIONS = [
     "generator domain = what a URL can represent: user names without ':@/?#[]', passwords without '/?#[]', replacement paths empty or starting with '/', host names compared case-insensitively, IPv6 hosts passed in brackets to replace()",
     "queries are UTF-8 text without '#' (undecodable query bytes belong to C12); a server address is always present",
